@@ -58,6 +58,8 @@ size_t
 calc_sptab_count_r(const char *buf, size_t buf_size) {
 	const char *cur, *buf_end;
 
+	if (0 == buf_size)
+		return (0);
 	buf_end = (buf + (buf_size - 1));
 	for (cur = buf_end; cur > buf && ((*cur) == ' ' || (*cur) == '\t'); cur --)
 		;
@@ -86,6 +88,8 @@ size_t
 calc_non_sptab_count_r(const char *buf, size_t buf_size) {
 	const char *cur, *buf_end;
 
+	if (0 == buf_size)
+		return (0);
 	buf_end = (buf + (buf_size - 1));
 	for (cur = buf_end; cur > buf && ((*cur) != ' ' && (*cur) != '\t'); cur --)
 		;
@@ -191,7 +195,7 @@ fmt_as_uptime(time_t *ut, char *buf, size_t buf_size) {
 	int rc;
 	uint64_t uptime, days, hrs, mins, secs;
 
-	if (NULL == ut)
+	if (NULL == ut || NULL == buf || 0 == buf_size)
 		return (0);
 	uptime = (uint64_t)(*ut);
 
